@@ -12,9 +12,10 @@ RULE = ("case = accepted (sde_type, noise_type, method, options incl. grad_free 
         "the closed-form families valid for that noise type (reducible phi in {exp, arctan, sinh, gd} with g''!=0 for all "
         "but exp; linear with commuting but non-symmetric matrices; time-scaled additive; a non-commutative triangular "
         "SDE with a fine Riemann reference) with drawn coefficients, y0, t0, horizon, entropy. One BrownianInterval with "
-        "B paths drives the whole ladder dt = 2^-3..2^-8 (thorough 2^-10); err(dt) = RMS over paths of |y_T - exact|, "
+        "B = 2048 (thorough 4096) paths drives the whole ladder dt = T*2^-3..T*2^-8 (thorough 2^-10); err(dt) = RMS over paths of |y_T - exact|, "
         "exact evaluated on bm(t0,T) of the same object. Oracles: least-squares slope of log err over the fine part of the "
-        "ladder >= advertised strong order (read from the instantiated solver) - 0.25, and err(finest) <= err(coarsest)/4; "
+        "ladder >= advertised strong order (read from the instantiated solver) - 0.25, and err(finest) <= err(coarsest) * "
+        "2^-((order-0.25)*number of halvings); "
         "the advertised order itself must equal the documented table. Adaptive kind: errors for rtol=atol in "
         "{1e-1..1e-4} are non-increasing within 10% and the tightest is <= half the loosest. Non-trivial = diffusion "
         "not identically zero and the slope window has >= 4 points above 1e3*eps; distinct = distinct canonical case JSON.")
@@ -26,7 +27,7 @@ BUDGET = {
     "quick": {"examples": 160, "shards": 16, "case_timeout": 240, "wall_budget": 280},
     "thorough": {"examples": 1600, "shards": 16, "case_timeout": 900, "wall_budget": 3000},
 }
-TOLERANCES = {"slope_margin": 0.25, "finest_vs_coarsest": 0.25, "adaptive_monotone_slack": 1.10}
+TOLERANCES = {"slope_margin": 0.25, "finest_vs_coarsest": "2^-((order-0.25)*halvings)", "adaptive_monotone_slack": 1.10}
 MARGIN = 0.25
 
 
@@ -37,7 +38,8 @@ def _case(draw, tier, adaptive=False):
     T = draw(st.sampled_from([0.5, 1.0, 1.0, 0.75]))
     t0 = draw(st.sampled_from([0.0, 0.0, 0.5, -1.0]))
     return {"kind": "adaptive" if adaptive else "ladder", "combo": combo, "spec": spec, "t0": t0, "T": T,
-            "entropy": draw(st.integers(0, 2 ** 31 - 2)), "y0seed": draw(st.integers(0, 2 ** 31 - 1))}
+            "entropy": draw(st.integers(0, 2 ** 31 - 2)), "y0seed": draw(st.integers(0, 2 ** 31 - 1)),
+            "kmax": 8 if tier == "quick" else 10, "paths": 2048 if tier == "quick" else 4096}
 
 
 def strategy(tier):
@@ -90,7 +92,8 @@ def enumerate_cases(tier):
                 spec.update({"d": 2, "m": 2, "kappa": coef(-1, 1)})
             yield {"kind": "ladder", "combo": combo, "spec": spec, "t0": rnd.choice([0.0, 0.5, -1.0]),
                    "T": rnd.choice([0.5, 1.0, 0.75]), "entropy": rnd.randrange(2 ** 31 - 2),
-                   "y0seed": rnd.randrange(2 ** 31)}
+                   "y0seed": rnd.randrange(2 ** 31), "kmax": 8 if tier == "quick" else 10,
+                   "paths": 2048 if tier == "quick" else 4096}
 
 
 def _solver_order(torchsde, sde, bm, combo):
@@ -110,9 +113,9 @@ def _slope(xs, ys):
 def run_case(case):
     import torchsde
     combo, spec = case["combo"], case["spec"]
-    thorough = case.get("tier") == "thorough"
     nc = spec["family"] == "triangular_nc"
-    B = 1024 if nc else 2048
+    kmax = case.get("kmax", 8)
+    B = case.get("paths", 2048) // (2 if nc else 1)
     sde = sdes_closed.compile_spec(spec, B)
     y0 = sde.y0(B, case["y0seed"])
     t0, t1 = case["t0"], case["t0"] + case["T"]
@@ -125,7 +128,7 @@ def run_case(case):
     labels = [label, f"family={spec['family']}" + (f":{spec['phi']}" if spec["family"] == "reducible" else ""),
               f"levy={combo['levy']}"]
     opts = dict(combo["options"]) or None
-    ks = list(range(3, 8 if nc else 9))
+    ks = list(range(3, (kmax if nc else kmax + 1)))
     with torch.no_grad():
         if nc:
             exact = sde.exact_riemann(y0, t0, t1, bm, case["T"] * 2.0 ** -(ks[-1] + 4))
@@ -191,8 +194,9 @@ def run_case(case):
                     f"{':' + spec['phi'] if spec['family'] == 'reducible' else ''}: measured strong order {slope:.3f} over "
                     f"dt=T*2^-{window[0][0]}..2^-{window[-1][0]}, advertised {adv}; RMS errors {['%.3e' % e for e in errs]}",
                     sig)
-    elif not errs[-1] <= errs[0] / 4:
+    elif not errs[-1] <= errs[0] * 2.0 ** (-(adv - MARGIN) * (ks[-1] - ks[0])):
+        bound = errs[0] * 2.0 ** (-(adv - MARGIN) * (ks[-1] - ks[0]))
         fail = Fail("no_convergence", f"{label} on {spec['family']}: err(finest)={errs[-1]:.3e} is not below "
-                                      f"err(coarsest)/4={errs[0] / 4:.3e}", sig)
+                                      f"err(coarsest)*2^-({adv}-{MARGIN})*{ks[-1] - ks[0]}={bound:.3e}", sig)
     return Result(nontrivial=True, labels=labels, checks=checks, fail=fail,
                   metrics={"min:slope_minus_advertised": slope - adv, "finest_err": errs[-1]})
